@@ -66,10 +66,27 @@ def run(cx, rep):
         rde = [n for n in walk(sp) if n["type"] == "CallExpression" and method_call(n) and method_call(n)[1] == "reportDecodeError"]
         ok = False
         bound = None
+        # the report may be named first (`const errors = rt.reportDecodeError(..)`): the name stands for the call when it
+        # is a const that is used only as the receiver of the slice
+        al = ts_common.local_aliases(sp)
+        named = {}
+        for k_, v_ in al.items():
+            if rde and any(unparen(v_) is r for r in rde):
+                decl_const = any(d["type"] == "VariableDeclaration" and d.get("kind") == "const" and any(x.get("id", {}).get("value") == k_ for x in d["declarations"]) for d in walk(sp))
+                if decl_const:
+                    named[k_] = unparen(v_)
+
+        def is_report(e):
+            e = unparen(e)
+            if rde and any(e is r for r in rde):
+                return next(r for r in rde if e is r)
+            if e.get("type") == "Identifier" and e["value"] in named:
+                return named[e["value"]]
+            return None
         for n in walk(sp):
             if n["type"] == "CallExpression":
                 mc = method_call(n)
-                if mc and mc[1] == "slice" and rde and unparen(mc[0]) is rde[0] and len(mc[2]) == 2:
+                if mc and mc[1] == "slice" and rde and is_report(mc[0]) is rde[0] and len(mc[2]) == 2:
                     a0, a1 = unparen(mc[2][0]), unparen(mc[2][1])
                     consts = {k: v[1] for k, v in mod.vars.items() if v[1] is not None and unparen(v[1]).get("type") == "NumericLiteral"}
                     consts.update({k: v for k, v in ts_common.local_aliases(sp).items() if unparen(v).get("type") == "NumericLiteral"})
@@ -80,7 +97,17 @@ def run(cx, rep):
                         ok = 1 <= bound <= 10
         # the sliced list is what is returned as `errors`
         rep.ob("C12.1", "slice", ok, "safeParse must return reportDecodeError(..).slice(0, n) with 1 <= n <= 10 (found bound %s)" % bound, mod.loc(sp), sample={"bound": bound})
-        unsliced = [r for r in rde if not any(n["type"] == "CallExpression" and method_call(n) and method_call(n)[1] == "slice" and unparen(method_call(n)[0]) is r for n in walk(sp))]
+        unsliced = [r for r in rde if not any(n["type"] == "CallExpression" and method_call(n) and method_call(n)[1] == "slice" and is_report(method_call(n)[0]) is r for n in walk(sp))]
+        # a named report must not escape unsliced: every use of the name is the receiver of a slice
+        for k_, r in named.items():
+            uses = [x for x in walk(sp) if x.get("type") == "Identifier" and x.get("value") == k_]
+            recv = [unparen(method_call(n)[0]) for n in walk(sp) if n["type"] == "CallExpression" and method_call(n) and method_call(n)[1] == "slice"]
+            decl = [d["id"] for d in walk(sp) if d["type"] == "VariableDeclarator" and d["id"].get("value") == k_]
+            # property names and type annotations are not uses of the binding
+            decl += [x for d in walk(sp) if (d.get("type") or "").startswith("Ts") for x in walk(d) if x.get("type") == "Identifier"]
+            decl += [d["key"] for d in walk(sp) if d["type"] == "KeyValueProperty"] + [d["property"] for d in walk(sp) if d["type"] == "MemberExpression" and d["property"].get("type") == "Identifier"]
+            if any(not any(u is x for x in recv) and not any(u is x for x in decl) for u in uses):
+                unsliced.append(r)
         rep.ob("C12.1", "no-unsliced-report", not unsliced, "safeParse returns an unsliced reportDecodeError result", mod.loc(sp))
     # ---------------------------------------------------------------- C12.2
     rep.rule("C12.11", "a reporter that delegates only to the members that reject has a branch for each rejection reason of its own")
